@@ -77,8 +77,8 @@ def jobs(ctx):
         kw = dict(load_dir=root, import_path="vgen/" + pkg, flags=["-looplimit", "10000000", "-conccap", "300", "-maxinstrs", "400000000"])
         nonascii = lx["opts"].get("scanBytes")
         heavy = lx["name"] == "l06"
-        params = {"nmax0": ((1 if heavy else 2) if q else 4), "nmaxp": (1 if q else 3), "ascii": 1 if heavy else 0, "freemax": 2 if nonascii else 1}
-        out.append(Job(pkg, pkg, [f1, f2], "VerifC11Lexer", params, tag="%s all prefixes" % pkg, cost=100, deadline=600 if q else 6000, **kw))
+        params = {"nmax0": ((1 if heavy else 2) if q else (2 if heavy else 3)), "nmaxp": (1 if q else 2), "ascii": 1 if heavy else 0, "freemax": 2 if nonascii else 1}
+        out.append(Job(pkg, pkg, [f1, f2], "VerifC11Lexer", params, tag="%s all prefixes" % pkg, cost=100, deadline=600 if q else 1500, **kw))
         out.append(Job(pkg, pkg, [f1, f2], "VerifC11Lexer", dict(params, nmax0=1, nmaxp=1), tag=pkg + " twin", twin=True, deadline=600, **kw))
     return out
 
@@ -90,7 +90,7 @@ def describe(ctx):
                        "tree. The generated Lexer.Init/Next/Pos/Line/Column/rewind (+ mapRune, keyword hash switch, backtracking tables) run on a concrete prefix followed by symbolic "
                        "bytes; every token (type, byte range, line, column) must equal that of a reference tokenizer which rebuilds lex.Tables from the same rule texts inside the "
                        "executor and repeatedly applies lex.Tables.Scan (the function C09 checks against the rules' denotational semantics), substituting keywords and skipping space rules.",
-        "bounds": {"symbolic bytes": "quick: k<=2 without prefix, k<=1 after each of 2-3 context prefixes (free bytes for k<=1, k<=2 in byte-mode grammars, ASCII beyond; the \\p{L} grammar gets non-ASCII only through its prefixes); thorough k<=4/3", "grammars": "%d lexer grammars" % len(LEX)},
+        "bounds": {"symbolic bytes": "quick: k<=2 without prefix, k<=1 after each of 2-3 context prefixes (free bytes for k<=1, k<=2 in byte-mode grammars, ASCII beyond; the \\p{L} grammar gets non-ASCII only through its prefixes); thorough k<=3/2", "grammars": "%d lexer grammars" % len(LEX)},
         "outside": ["start conditions (need hand-written state switching code)", "grammars outside the corpus", "the table relation over all code points described in DESIGN (not built)"],
         "trusted": ["go/ssa", "symgo executor", "z3", "lex.Tables.Scan as reference (C09)", "the corpus' classification of keyword rules"],
         "assumptions": [],
